@@ -187,7 +187,16 @@ class ImplWorld:
         self.vars = {}
         self.dicts = []
         self.embcx = {}     # embedding var -> complex var
+        self.integrators = {}
         self.iters = {}     # iterator var -> [python iterator, filtration var, steps taken]
+
+    def integrator(self, key, default):
+        """one EulerIntegrator per (attribute, default) for the whole script: an integrator that
+        remembered anything from an earlier call would show"""
+        k = (key, default)
+        if k not in self.integrators:
+            self.integrators[k] = EulerIntegrator(key, default)
+        return self.integrators[k]
 
     # -- arguments
     def attr(self, T):
@@ -484,7 +493,7 @@ class ImplWorld:
                       'gt': lambda: c > w, 'eq': lambda: c == w, 'ne': lambda: c != w}[op]())
         if q == 'attr': return dict_s(c[T.name()])
         if q == 'integrate':
-            a = T.str(); d = T.int(); return str(EulerIntegrator(a, d).integrate(c))
+            a = T.str(); d = T.int(); return str(self.integrator(a, d).integrate(c))
         if q == 'getindex': return idx_tok(c.getIndex())
         if q == 'indices': return '[ ' + ' '.join(idx_tok(i) for i in c.indices(reverse=T.bool())) + ' ]'
         if q == 'isindex': return b(c.isIndex(T.idx()))
